@@ -88,9 +88,9 @@ P['C02']['jobs'] += [_sub_job('subscribe_no_loss', 0, 2, 4, 6, ['request-complet
 
 P['C04'] = dict(
     level_text='The real mqtt_client receives PUBLISH packets (QoS 0/1/2, symbolic topic/payload bytes and Message Expiry) from a protocol-conformant broker model; every order of new messages, PUBREL, completion of the client\'s acknowledgement writes, connection loss and reconnect with Session Present 0/1 (followed by the broker\'s DUP retransmissions and PUBREL retransmissions) is explored, then a fault-free suffix. Monitors: acknowledgement type and id per QoS, PUBCOMP only after PUBREL, every PUBREL answered, delivered topic/payload/properties equal the sent ones, QoS 2 at most once and exactly once when the exchange completes, QoS 1 at least once, order per QoS level.',
-    level_note='Bounds: 2 inbound messages and one request of the application (whose packet identifier equals the one the broker uses), 1 connection loss, 5 (quick) / 7 (thorough) steps; backlog limit 65535 of the receive channel not reached. The broker retransmits only after a reconnect that resumes the session (MQTT-4.4.0-1).',
+    level_note='Bounds: 2 inbound messages and one request of the application (whose packet identifier equals the one the broker uses), 1 connection loss, 5 (quick) / 6 (thorough) steps; backlog limit 65535 of the receive channel not reached. The broker retransmits only after a reconnect that resumes the session (MQTT-4.4.0-1).',
     assumptions=_pub_assume[:2] + ['broker model is a conformant MQTT sender: DUP retransmission of unacknowledged PUBLISH and of PUBREL only after a reconnect with Session Present 1'],
-    jobs=[dict(name='inbound', tu='harness/w_recv.cpp', entry='h_recv', engine='B', clock=True, defs={'VK_MSGS': 2}, defs_quick={'VK_STEPS': 5}, defs_thorough={'VK_STEPS': 7},
+    jobs=[dict(name='inbound', tu='harness/w_recv.cpp', entry='h_recv', engine='B', clock=True, defs={'VK_MSGS': 2}, defs_quick={'VK_STEPS': 5}, defs_thorough={'VK_STEPS': 6},
                reach=['qos0-delivered', 'qos1-delivered', 'qos2-delivered', 'pubrel-sent', 'pubcomp-received', 'session-lost', 'session-resumed', 'publish-retransmitted', 'pubrel-retransmitted', 'write-lost-in-flight', 'own-publish'], samples=10)])
 
 P['C05'] = dict(
@@ -142,9 +142,9 @@ P['C12'] = dict(
 
 P['C13'] = dict(
     level_text='On the real mqtt_client: every sequence (up to the step bound) of subscriptions answered with a symbolic admissible SUBACK code (granted 0..2 or refused), connection losses followed by a reconnect with Session Present 0 or 1, and inbound messages, with async_receive re-armed continuously. Monitor: the number of session_expired entries delivered equals the number of reconnects with Session Present 0 that were preceded, since the start or the previous report, by a granted subscription; none otherwise; and each report precedes every message the broker sent on the connection that caused it.',
-    level_note='Bounds: 2 subscriptions, 3 reconnects, 2 messages, 5 (quick) / 7 (thorough) steps.',
+    level_note='Bounds: 2 subscriptions, 3 reconnects, 2 messages, 5 (quick) / 6 (thorough) steps.',
     assumptions=_pub_assume[:2],
-    jobs=[dict(name='session_expired_once', tu='harness/w_sess.cpp', entry='h_session', engine='B', clock=True, defs_quick={'VK_STEPS': 5}, defs_thorough={'VK_STEPS': 7},
+    jobs=[dict(name='session_expired_once', tu='harness/w_sess.cpp', entry='h_session', engine='B', clock=True, defs_quick={'VK_STEPS': 5}, defs_thorough={'VK_STEPS': 6},
                reach=['reported', 'subscribed', 'subscription-refused', 'session-lost-with-subscription', 'session-lost-without-subscription', 'message'], samples=10)])
 
 _caps = 'harness/w_caps.cpp'
@@ -160,9 +160,9 @@ P['C16']['jobs'] += [dict(name='request_validation', tu=_caps, entry='h_req_vali
 
 P['C11'] = dict(
     level_text='Kernel: the real async_mutex (the connection lock) on the FIFO executor, differentially against a small reference model, under every sequence of lock requests (3-4 waiters with cancellation slots), unlock by the holder, per-waiter cancellation signals, cancel-all and single handler executions: never two holders, is_locked() equals the model after every step, every waiter answered exactly once - success in arrival order if the model grants, operation_aborted if cancelled while queued - never inside lock/unlock/cancel/emit. Whole client: simultaneous read failure, write failure and keep-alive timeout on one connection lead to exactly one connection attempt at a time (stub socket counts overlapping attempts), and a stale trigger does not connect again.',
-    level_note='Bounds: kernel 3 waiters x 8 steps (quick) / 4 x 10 (thorough); whole client: one loss with up to three simultaneous triggers. Single thread.',
+    level_note='Bounds: kernel 3 waiters x 8 steps (quick) / 4 x 9 (thorough); whole client: one loss with up to three simultaneous triggers. Single thread.',
     assumptions=['single thread; FIFO executor'] + _pub_assume[:1],
-    jobs=[dict(name='mutex_model', tu='harness/k_mutex.cpp', entry='h_mutex', engine='B', clock=True, defs_quick={'VK_STEPS': 8, 'VK_WAITERS': 3}, defs_thorough={'VK_STEPS': 10, 'VK_WAITERS': 4},
+    jobs=[dict(name='mutex_model', tu='harness/k_mutex.cpp', entry='h_mutex', engine='B', clock=True, defs_quick={'VK_STEPS': 8, 'VK_WAITERS': 3}, defs_thorough={'VK_STEPS': 9, 'VK_WAITERS': 4},
                reach=['unlock', 'waiter-cancelled', 'cancel-all', 'granted'], samples=12),
           dict(name='single_flight', tu='harness/w_single.cpp', entry='h_single_flight', engine='B', clock=True, reach=['read-failed', 'write-failed', 'read-timeout', 'refused', 'cancelled-midway', 'reconnected-once'], samples=10)])
 
